@@ -129,6 +129,8 @@ def run(R):
                                      HDR + "RecordHeader::is_record_of_type_chunk"], floor_bodies=8)
     # (4) chunk address recomputed
     chunk_rules(R, "C12")
+    wire_layout_rule(R)
+    chunk_total_rule(R)
 
 
 def chunk_rules(R, pfx):
@@ -268,3 +270,47 @@ def derive_rules(R):
     for b, d in dup:
         R.viol("C12.derive.names", "duplicate-variant-name:%s" % R.root_path(b).split(" as ")[0].lstrip("<").split("::")[-1], "%s writes two variants under the same wire name %s" % (R.root_path(b), d), b, b.lines[0])
     R.inst("C12.derive.names", "K7 table agreement", "no enum writes two variants under one wire name", ne, not dup)
+
+
+def wire_layout_rule(R):
+    """Records are encoded with rmp_serde's compact form: a struct is an array of its fields in declaration order.  Re-ordering, adding
+    or dropping a field of a record content type changes the bytes every other build reads — same statement as the pinned kind tags,
+    one level down.  The order the derive-generated Serialize writes is compared with the pinned table (props/C12_wire_layout.json)."""
+    import json, os, serdepair
+    pin = json.load(open(os.path.join(os.path.dirname(os.path.abspath(__file__)), "C12_wire_layout.json")))
+    now = serdepair.wire_layout(R.F, pin["roots"])
+    ok = True
+    for a, want in sorted(pin["layout"].items()):
+        got = now.get(a)
+        if got != want:
+            ok = False
+            R.viol("C12.layout", "layout:%s" % a.split("::")[-1], "%s is written as %s but the pinned wire layout is %s: a record encoded by this build does not decode (or decodes to other "
+                   "values) on a node built from the pinned layout" % (a, got, want))
+    for a in sorted(set(now) - set(pin["layout"])):
+        ok = False
+        R.viol("C12.layout", "layout-new:%s" % a.split("::")[-1], "%s (%s) is now part of a record's encoding but not of the pinned wire layout" % (a, now[a]))
+    R.inst("C12.layout", "K7 table agreement (pinned)", "field / variant order written for every record content type equals the pinned wire layout", len(now), ok and len(now) >= 10, {"types": sorted(now)})
+
+
+def chunk_total_rule(R):
+    """Every value a chunk encodes to decodes again: once the inner byte-string decode succeeded, <Chunk as Deserialize>::deserialize
+    answers Ok(Chunk::new(bytes)) — it has no refusal of its own (an `if value.is_empty() { Err }` breaks the round trip for that value)."""
+    de = R.body("C12.chunk.total", "<ant_protocol::storage::chunks::Chunk as serde::de::Deserialize<'de>>::deserialize")
+    if de is None:
+        return
+    from rules import CallGuard, RetSink
+    prep(de)
+    g = cfg_of(de)
+    inner = CallGuard(["serde::de::Deserialize::deserialize", "*::deserialize"], ("Ok",), "the inner decode of the bytes is Ok")
+    n, acc, rej = inner.edges(de)
+    oks = set(RetSink("Ok").blocks(de))
+    rets = {b["id"] for b in de.blocks if b["term"]["k"] == "return"}
+    from rules import final_edges
+    ok = bool(acc) and bool(oks)
+    if ok:
+        starts = tuple(d for _, d in final_edges(g, acc))
+        ok = not (g.reach(starts, avoid=oks) & rets)
+    if not ok:
+        R.viol("C12.chunk.total", "chunk-refused", "<Chunk as Deserialize>::deserialize can refuse bytes that decoded (or does not build the chunk from them): a chunk value exists whose "
+               "encoding does not decode", de, de.lines[0])
+    R.inst("C12.chunk.total", "K5 must-follow", "decoded bytes always become Ok(Chunk::new(bytes))", n, ok)
